@@ -26,6 +26,7 @@ def regOp : P (RegOp Rat) := do
         | "mat" => do let m ← mat; pure (some (Weights.mat m))
         | t => throw s!"bad weights `{t}`")
       pure (.targets b w)
+  | "fit" => do let p ← mat; pure (.fitInternal p)
   | t => throw s!"bad registration op `{t}`"
 
 def showAdapt : Adapt Rat → String
@@ -50,7 +51,8 @@ def digest (s : Est Rat) (px : List Rat) (psig : List (List Rat)) : String :=
   " ".intercalate [showAnswer (s.answer .getA), showAnswer (s.answer .getK), s!"base {showVec s.baseline}",
     showAnswer (s.answer .getBounds), showAnswer (s.answer (.systemCapture px)),
     showAnswer (s.answer (.systemRelativeCapture px)), showAnswer (s.answer (.relativeCapture psig)),
-    showAnswer (s.answer (.inSystem px)), showAnswer (s.answer .getTargets), showAnswer (s.answer .getWeights)]
+    showAnswer (s.answer (.inSystem px)), showAnswer (s.answer .getTargets), showAnswer (s.answer .getWeights),
+    showAnswer (s.answer .getWork)]
 
 def ops14 : List (String × Handler) := [
   -- hist <filters> <dom> <K> <baseline> <w> <probe x> <probe signals> <nops> {op}  ->  per step: "ok <digest>" / "assert", separated by " ; "
